@@ -124,6 +124,10 @@ func c13Run(c *core.Ctx, keyName, method string, kind int) {
 	sp, _ := c12SP(k)
 	sp.Key, sp.Certificate = kp.Key, kp.Cert
 	sp.SignatureMethod = method
+	if c.Rng.Intn(4) == 0 { // a certificate chain: the published signing certificate is still the SP's own (the first listed)
+		sp.Intermediates = []*x509.Certificate{fx.K("idp_s2").Cert}
+		c.Count("sp_configured_with_intermediates")
+	}
 	sp.IDPMetadata.IDPSSODescriptors[0].ArtifactResolutionServices = []saml.Endpoint{{Binding: saml.SOAPBinding, Location: so.IDPArt}}
 	kinds := []string{"authn-redirect", "authn-post", "logoutreq-redirect", "logoutreq-post", "logoutresp-redirect", "logoutresp-post", "artifact-resolve"}
 	desc := fmt.Sprintf("key=%s method=%s kind=%s relay=%q endpoint=%q entityID=%q authnCtx=%v forceAuthn=%v format=%q", keyName, shortAlg(method), kinds[kind], truncate(relay, 50), ep, k.entityID, c13Ctx(k.authnCtx), k.forceAuthn != nil, k.format)
